@@ -12,6 +12,10 @@
 (*   exit  res, id, conc                         Exit of admitted entry id *)
 (*   conc  res, bs, sched, oks, conc             k gated goroutines ran    *)
 (*           api.Entry in the interleaving sched (small batches)           *)
+(*   storm res, workers, iters, admitted, rejected, maxinfl, conc          *)
+(*           W free-running goroutines entered / exited the resource with  *)
+(*           batch 1; maxinfl = largest driver-side count of admitted and  *)
+(*           not yet exited entries, conc = gauge at quiescence            *)
 (* The abstract state follows the OBSERVED outcome.                        *)
 (***************************************************************************)
 EXTENDS AdmitOps, TLC, Json
@@ -117,7 +121,29 @@ TConc ==
     \* the driver exits every admitted caller before the next event: in-flight is unchanged
     /\ UNCHANGED <<rs, infl, g>>
 
+---------------------------------------------------------------------------
+(* W free-running callers (batch 1 each).  At most W of them are inside the *)
+(* admission path at once, so in-flight <= N + (W-1) at every instant; the  *)
+(* driver's own count is a lower bound of the true in-flight figure.  Every *)
+(* entry of the phase has exited when the record is taken: the gauge is     *)
+(* back to the entries that were in flight before, every call returned, and *)
+(* if N leaves room for all W callers on top of those nobody is rejected.   *)
+StormOK(res, W, iters, adm, rej, maxinfl, conc) ==
+    LET cnt  == Cardinality(infl[res])
+        mine == RulesOf(rs, res)
+    IN  /\ adm + rej = W * iters
+        /\ conc = cnt
+        /\ \A i \in mine : maxinfl = 0 \/ ULeq(USmall(cnt + maxinfl), UAdd(rs[i].N, USmall(W - 1)))
+        /\ (\A i \in mine : ~Over(cnt + W - 1, USmall(1), rs[i].N)) => rej = 0
+
+TStorm ==
+    /\ IsEvent("storm")
+    /\ Judge(StormOK(Ev.res, Ev.workers, Ev.iters, Ev.admitted, Ev.rejected, Ev.maxinfl, Ev.conc),
+             [conc |-> Cardinality(infl[Ev.res]),
+              bound |-> "gauge back to the entries in flight before; in-flight <= N + W-1; no rejection when N >= in-flight + W"])
+    /\ UNCHANGED <<rs, infl, g>>
+
 TInit == l = 1 /\ rs = << >> /\ infl = << >> /\ g = [tr |-> 0] /\ failed = FALSE
-TNext == TNew \/ TReq \/ TExit \/ TConc
+TNext == TNew \/ TReq \/ TExit \/ TConc \/ TStorm
 TSpec == TInit /\ [][TNext]_tvars
 =============================================================================
